@@ -41,6 +41,15 @@ Theorem C06_aa_unclipped_vertish_walk_inside_clip :
   forall x y a, In (x, y, a) out -> cl <= x < cr /\ ct <= y < cb /\ 0 < a.
 Proof. exact walk_vertish_inside_clip. Qed.
 
+(* the known finding C06-aa-hairline-top-left-fold as a theorem about the model: when the segment starts above the pixmap the
+   accumulator is clamped to 0 and the REST of the segment leaves its ideal rows (witness: slope 1/2 from y = -1.25; column 5 is
+   drawn on row 2 where the line passes at y = 1.75) *)
+Theorem C06_aa_rows_refuted_when_clamped :
+  exists istart istop fstart slope s0 s1 out x y a,
+    walk Horish None istart istop fstart slope s0 s1 = Some out /\ In (x, y, a) out /\
+    ~ (let q := Z.max (fstart + half16 + (x - istart) * slope) 0 / 65536 in y = Z.max q 1 - 1 \/ y = Z.max q 1 - 1 + 1).
+Proof. exact walk_rows_refuted_when_clamped. Qed.
+
 (* non-vacuity: a 5-column walk starting at row 3.25 with slope 1/4 *)
 Example C06_aa_example :
   walk Horish None 2 7 (3 * 65536 + 16384) 16384 64 0 =
